@@ -566,7 +566,15 @@ func (env *Env) writePath(base Term, path []PathElem, v Term, pos token.Pos) Ter
 		}
 	case "mapidx":
 		if len(path) > 1 {
-			env.fail(pos, "write below a map element is not supported")
+			// m[k][i] = v : the slice stored under k shares its backing array with the map's value, so the element
+			// store is visible through the map: update the stored slice value
+			if path[1].Kind != "index" {
+				env.fail(pos, "write below a map element is only supported for slice elements")
+			}
+			cur := Term{app("select", app(base.Sort+".val", base.S), pe.Idx.S), si.Elem}
+			nv := env.writePath(cur, path[1:], v, pos)
+			return Term{app(si.Ctor, app(base.Sort+".has", base.S), app("store", app(base.Sort+".val", base.S), pe.Idx.S, nv.S),
+				app(base.Sort+".card", base.S), app(base.Sort+".nonnil", base.S)), base.Sort}
 		}
 		has := app(base.Sort+".has", base.S)
 		val := app(base.Sort+".val", base.S)
